@@ -179,8 +179,14 @@ func VerifHarness_C16_ReloadOther() {
 	path := verifFSRoot() + "/state/history.json"
 	live := NewSearchHistory(path, 5)
 	live.Entries = c16Entries(verifIntRange("held", 0, 2))
+	for k := range live.Entries {
+		live.Entries[k].Context, live.Entries[k].Duration = "in a go project", 7
+	}
 	other := NewSearchHistory(path, 5)
 	other.Entries = c16Entries(verifIntRange("stored", 0, 2))
+	for k := range other.Entries {
+		other.Entries[k].Context, other.Entries[k].Duration = "", 0 // fields the file format omits when empty
+	}
 	if verifBool("cleared") {
 		if err := other.Clear(); err != nil {
 			return
@@ -194,6 +200,8 @@ func VerifHarness_C16_ReloadOther() {
 	if len(live.Entries) == len(other.Entries) {
 		for i := range other.Entries {
 			verifAssert(live.Entries[i].Query == other.Entries[i].Query, "C16: saving and loading gives back the same entries")
+			verifAssert(live.Entries[i].Context == other.Entries[i].Context && live.Entries[i].Duration == other.Entries[i].Duration && live.Entries[i].ResultsCount == other.Entries[i].ResultsCount,
+				"C16: saving and loading gives back the same entries (every field, also those the file omits when empty)")
 		}
 	}
 	st := live.GetStats()
